@@ -239,3 +239,43 @@ func VP_C07_NonceFresh() {
 	vpAssert("model: nonce-is-fresh-random", vpFreshBytes(t1.nonce) && vpFreshBytes(t2.nonce))
 	vpCover("end")
 }
+
+// VP_C07_RepeatedChecks: a token is presented more than once and between other tokens (what the
+// API handlers do all day): every single verdict follows the token's own age since it was issued -
+// not the time of an earlier successful check -, and what an earlier check returned stays what it
+// was while later checks run.
+func VP_C07_RepeatedChecks() {
+	f, err := NewWebSessionFactory(vpLifetime * time.Second)
+	if err != nil {
+		panic("setup")
+	}
+	t1 := vpIssueAs(f, vpStr("t1-user", 1+vpChoose("t1-userlen", 2)), vpChoose("t1-admin", 2) == 1)
+	t2 := vpIssueAs(f, vpStr("t2-user", 1+vpChoose("t2-userlen", 2)), !t1.admin)
+	vpAssume(strings.IndexByte(t1.user, ':') < 0 && strings.IndexByte(t2.user, ':') < 0)
+	const life = vpLifetime * time.Second
+	vpSleep(vpInt("gap1", 0, 4))
+	aLo := time.Now()
+	r1 := vpCheck(f, t1.text)
+	aHi := time.Now()
+	u1 := r1.user // the value a handler keeps using after the call
+	acc1 := r1.status == http.StatusOK
+	vpAssert("first-check-within-lifetime-accepted", vpImp(aHi.Sub(t1.tLo) <= life-time.Second, acc1))
+	vpAssert("first-check-after-lifetime-rejected", vpImp(aLo.Sub(t1.tHi) > life, !acc1))
+	vpAssert("first-check-identity", vpImp(acc1, u1 == t1.user && r1.admin == t1.admin))
+	// another session is checked in between
+	r2 := vpCheck(f, t2.text)
+	acc2 := r2.status == http.StatusOK
+	vpAssert("other-token-identity", vpImp(acc2, r2.user == t2.user && r2.admin == t2.admin))
+	vpAssert("earlier-result-unchanged-by-a-later-check", vpImp(acc1, u1 == t1.user))
+	vpSleep(vpInt("gap2", 0, 4))
+	bLo := time.Now()
+	r3 := vpCheck(f, t1.text)
+	bHi := time.Now()
+	acc3 := r3.status == http.StatusOK
+	vpAssert("repeated-check-within-lifetime-accepted", vpImp(bHi.Sub(t1.tLo) <= life-time.Second, acc3))
+	vpAssert("repeated-check-after-lifetime-rejected", vpImp(bLo.Sub(t1.tHi) > life, !acc3))
+	vpAssert("repeated-check-identity", vpImp(acc3, r3.user == t1.user && r3.admin == t1.admin))
+	vpAssert("other-result-unchanged-by-a-later-check", vpImp(acc2, r2.user == t2.user))
+	vpAssert("no-panic", !r1.panicked && !r2.panicked && !r3.panicked)
+	vpCover("end")
+}
